@@ -7,6 +7,7 @@ import (
 	"go/token"
 	"go/types"
 	"regexp"
+	"strings"
 
 	"golang.org/x/tools/go/ssa"
 
@@ -319,11 +320,28 @@ func sliceLenLB(b *ssa.BasicBlock, base ssa.Value) (int64, string) {
 	if n, w := calleeLenLB(b, base, 0); n > lb {
 		lb, why = n, w
 	}
+	if prm, ok := core.StripConv(base).(*ssa.Parameter); ok && lenLBProgram != nil {
+		if pats := regexCallbackPatterns(lenLBProgram, prm); len(pats) > 0 {
+			best := int64(-1)
+			for _, pat := range pats {
+				if n := regexMinMatchLen(pat); best < 0 || n < best {
+					best = n
+				}
+			}
+			if best > lb {
+				lb, why = best, fmt.Sprintf("a match of %s handed to the ReplaceAllStringFunc callback: at least %d bytes", strings.Join(pats, " / "), best)
+			}
+		}
+	}
 	return lb, why
 }
 
+// lenLBProgram: the program the length producers may consult (set with the regexp resolver).
+var lenLBProgram *core.Program
+
 // installRegexpResolver wires GlobalRegexpPattern to the AST of the loaded program.
 func installRegexpResolver(p *core.Program) {
+	lenLBProgram = p
 	cache := map[*ssa.Global]string{}
 	GlobalRegexpPattern = func(g *ssa.Global) string {
 		if s, ok := cache[g]; ok {
